@@ -738,7 +738,12 @@ impl Deserialise for ManagementAddress {
         let mgmt_addr_len = (buf
             .get_u8()
             .ok_or(pktparser::ParseError::UnexpectedEndOfInput)?)
-            - 1; /* -1 for sizeof<mgmt_addr_af> */
+        .checked_sub(1) /* -1 for sizeof<mgmt_addr_af> */
+        .ok_or_else(|| {
+            pktparser::ParseError::InvalidArgument(
+                "0 outside of valid range for mgmt_addr string length".into(),
+            )
+        })?;
         let mgmt_addr_af = buf
             .get_u8()
             .ok_or(pktparser::ParseError::UnexpectedEndOfInput)?;
